@@ -10,6 +10,7 @@ def handle (k : String) (inp : Json) : Option (R Res) :=
   match k with
   | "c05.conc" => some (conc inp)
   | "c05.stale" => some (conc inp)
+  | "c19.renamerace" => some (conc inp)
   | _ => none
 
 end Hub.Drv.C05
